@@ -610,16 +610,16 @@ def plans(seq, Gn, ignored, thorough, full_upto):
 def cases_iter_chromosomes(thorough, full_upto):
     for gcfg in GCFGS:
         for n in range(1, 5):
-            if gcfg == "sorted" and n == 1:
+            if gcfg == "sorted" and (n == 1 or (n == 4 and not thorough)):
                 continue
             maxlen = None
             if not thorough:
                 if gcfg == "inc_" and n >= 3:
                     maxlen = 2 if n == 3 else 1
                 elif gcfg != "plain" and n == 4:
-                    maxlen = 3
+                    maxlen = 2 if gcfg == "ign_" else 3
             elif n == 4 and gcfg != "plain":
-                maxlen = {"ignM": 5, "ign_": 4, "sorted": None, "inc_": 3}[gcfg]
+                maxlen = {"ignM": 4, "ign_": 4, "sorted": None, "inc_": 3}[gcfg]
             _, G, ignored = genome_layout(gcfg, n)
             Gn = [g for g, _ in G]
             for seq in sequences(universe(gcfg, n), maxlen):
@@ -641,8 +641,8 @@ def cases_multistream(thorough, full_upto):
         for seq in sequences(Gn + [UNKNOWN]):
             for gi, groups, chs in plans(seq, Gn, set(), thorough, full_upto):
                 N = sum(k for _, k in groups)
-                for si, sizes in enumerate(("dict", "chromsize", "seqsizes")):
-                    for chunks in (chs if (si == 0 or thorough) else chs[:1]):
+                for si, sizes in enumerate(("dict", "chromsize", "seqsizes") if (thorough or n <= 3) else ("dict",)):
+                    for chunks in (chs if si == 0 else chs[:3] if thorough else chs[:1]):
                         for consumer in ("exhaust", "zip"):
                             yield {"contract": "multistream", "n": n, "groups": groups, "chunks": chunks, "input": "stream",
                                    "sizes": sizes, "consumer": consumer}
